@@ -19,7 +19,7 @@ LEVEL = "exploration"
 RULE = ("every built-in data command x 1..5 inputs x rank 1-3 shapes x int/float dtypes x mask styles (nomask, all-false, random, "
         "single cell, all-but-one, all) x 3 payloads under the mask; CSV cases vary the number stored in missing cells; distinct by "
         "(command, n, rank, dtypes, mask classes, params)")
-REQUIRED_COUNTERS = ["netcdf_joint_write_then_reuse_checks", "netcdf_marker_variation_checks", "mask_superset_checks", "mask_exact_checks", "payload_variation_checks", "masked_input_cells", "csv_payload_checks", "follow_up_mask_checks", "netcdf_fill_mask_checks", "large_rasters_checked", "csv_rereads_with_other_marker", "large_files_read", "later_same_family_checks", "printed_fields_compared", "netcdf_write_read_back_checks"]
+REQUIRED_COUNTERS = ["cancelling_weight_cases", "csv_written_file_checks", "netcdf_joint_write_then_reuse_checks", "netcdf_marker_variation_checks", "mask_superset_checks", "mask_exact_checks", "payload_variation_checks", "masked_input_cells", "csv_payload_checks", "follow_up_mask_checks", "netcdf_fill_mask_checks", "large_rasters_checked", "csv_rereads_with_other_marker", "large_files_read", "later_same_family_checks", "printed_fields_compared", "netcdf_write_read_back_checks"]
 ASSUMPTIONS = ["what is stored under result masks and fill values are not judged", "NaN/inf and zero-length arrays are never generated",
                "cases where the reference is undefined (constant arrays, equal thresholds, zero weight sums) only get check (a) and (c)"]
 
@@ -52,6 +52,10 @@ def cases(ctx):
                 if not s["mask"][i_] and isinstance(s["data"][i_], (int, float)) and abs(s["data"][i_]) > 1e17:
                     s["data"][i_] = 0.5 if cmd in arr.FUZZY_INPUT else (3 if s["dtype"].startswith(("int", "uint")) else 3.5)
         c["kind"] = "array"
+        if cmd == "WeightedMean" and rng.random() < 0.25:
+            n_ = len(c["inputs"])
+            w_ = [rng.choice([1, 2, 0.5, 3]) for _ in range(n_ - 1)]
+            c["params"] = dict(c["params"], Weights=(w_ + [-sum(w_)]) if n_ > 1 else [0])
         if rng.random() < 0.15:
             for s_ in c["inputs"]:
                 if s_.get("mask") and not s_.get("layout") and rng.random() < 0.7:
@@ -116,6 +120,11 @@ def gen_csv_case(rng):
         for i_ in range(nrows):
             if not mask[i_] and rng.random() < 0.3:
                 col[i_] = rng.choice([-9998.95, -9999.08, -9999.000001, 77777.5, 77776.9, 4e-09, -2e-12])
+    if rng.random() < 0.25:
+        # a valid cell holding the number NumPy itself uses as its default fill value (999999 / 1e20): an ordinary value
+        free = [i_ for i_ in range(nrows) if not mask[i_]]
+        if free:
+            col[rng.choice(free)] = 999999 if integer else 1e20
     case = {"kind": "csv", "col": col, "mask": mask, "integer": integer, "chain": chain,
             "other": [arr.lattice_value(rng, integer=integer) for _ in range(nrows)]}
     if rng.random() < 0.25:
@@ -404,6 +413,13 @@ def run_case(ctx, case):
                 ctx.fail("%s:missing-cell-present" % cmd, {"cell": i, "result_type": type(res).__name__, "value_there": numpy.ma.getdata(res).ravel()[i].item(),
                                                           "params": params, "n_inputs": len(inputs)})
             else:
+                if cmd == "WeightedMean" and sum(params.get("Weights") or [1]) == 0:
+                    # weights that cancel: the mean is a division by zero in every cell - missing everywhere, never a number
+                    ctx.count("cancelling_weight_cases")
+                    if not rmask.all():
+                        i = int(numpy.flatnonzero(~rmask)[0])
+                        ctx.fail("WeightedMean:weights-summing-to-zero:cell-present", {"cell": i, "value_there": repr(numpy.ma.getdata(res).ravel()[i].item()), "params": params})
+                        return
                 try:
                     want, _ = ref.MODELS[cmd]([arr.frac_cells(a) for a in inputs], params)
                 except ref.Undefined as e:
@@ -532,6 +548,26 @@ def run_csv(ctx, case):
                 ctx.fail("csv:%s:missing-cell-present" % "+".join(case["chain"]), {"result": arr.describe(res), "mask_in": case["mask"]})
                 return
             digs.append(_vis_digest(res))
+            if marker == (case.get("markers") or (-9999, 77777))[0]:
+                # the column as read, written to a CSV file next to the other column: its valid cells are written as numbers
+                # (their own), whatever they happen to equal
+                import csv as _csv
+                arr.invoke(prog, "EEMSRead", "Y", {"InFileName": path, "InFieldName": "Y", "DataType": "Integer" if case["integer"] else "Float"})
+                w = arr.invoke(prog, "EEMSWrite", "W", {"OutFileName": os.path.join(d, "written.csv"), "OutFieldNames": ["X", "Y"]})
+                ctx.count("csv_written_file_checks")
+                if w.ok:
+                    with open(os.path.join(d, "written.csv"), newline="") as fh:
+                        rows = [r for r in _csv.reader(fh) if r][1:]
+                    for i_, (row, v, m) in enumerate(zip(rows, case["col"], case["mask"])):
+                        if m:
+                            continue
+                        try:
+                            ok_ = float(row[0]) == float(v)
+                        except (ValueError, IndexError):
+                            ok_ = False
+                        if not ok_:
+                            ctx.fail("csv:written-file:valid-cell-not-written-as-its-number", {"row": i_, "cell_text": row[0] if row else None, "value": v})
+                            return
             # the same file and column read again in this process with another missing marker (a valid value of the column),
             # and with none: each read is missing exactly where the file holds *its* marker
             valid = [v for v, m in zip(case["col"], case["mask"]) if not m]
